@@ -49,7 +49,9 @@ P = {
        "(handler decides on the recorded value, retry inside the handler, "
        "*_signed only in else, finally restores) and that the either-or gate "
        "blocks the accepting return. The 8x4x2 run-time table itself is not "
-       "executed.",
+       "executed. R7: a signature counts as verified only on the true branch "
+       "of the verifier call (C01.R7 re-evaluated under 'every signature that "
+       "is present verifies').",
   ref="Part 3 C02"),
 }
 
@@ -120,7 +122,9 @@ def main():
                               "forms, schema-table reflection, canonical guard "
                               "atoms, behaviour-preserving normalisation "
                               "(inline expansion of new helpers, desugaring, "
-                              "alpha-renaming), three-case abstract "
+                              "alpha-renaming, function-rename restoration), "
+                              "shared-state and argument-slot rules with "
+                              "embedded positive controls, three-case abstract "
                               "evaluation of optional-field filters",
         }],
         "checks": checks,
@@ -128,9 +132,9 @@ def main():
         "notes": "All checks parse /repo (override: VERIF_REPO) on every run. "
                  "Exit 0 holds / 1 VIOLATION / 2 ANALYSIS-ERROR (fail closed). "
                  "Known findings: /verif/known_findings.json. Self-test "
-                 "variants: selftest/run.py (293); seeded breaking changes: "
-                 "seeded/ (95, all reported); behaviour-preserving refactoring "
-                 "patches: benign/ (40, all silent); tools/corpus.py re-checks "
+                 "variants: selftest/run.py (312); seeded breaking changes: "
+                 "seeded/ (114, all reported); behaviour-preserving refactoring "
+                 "patches: benign/ (50, all silent); tools/corpus.py re-checks "
                  "both.",
     }
     with open(os.path.join(VERIF, "MANIFEST.json"), "w") as fh:
